@@ -52,6 +52,7 @@ def scopes(tier):
         ("move", sc("WorldsMove", "import,importas,from,fromas,star", 2, 1, 3, mg, qforms="import,from,star")),
         ("movepkg", sc("WorldsMovePkg", "import,importas,from,fromas,rel", 2, 1, 3, mg, qforms="import,from,rel",
                        qsize=one)),
+        ("movesib", sc("WorldsMoveSib", "import", 2, 1, 3, mg, MaxChain=2)),
         ("reloc", sc("WorldsReloc", "import,importas,from,fromas,rel", 2, 1, 3, rl, qforms="import,importas,from,fromas,rel",
                      qsize=one)),
         ("relocinit", sc("WorldsRelocInit", "import,importas,from,fromas", 2, 1, 3, rl, qforms="import,from")),
@@ -68,8 +69,8 @@ def scopes(tier):
 
 def quick_limit(name):
     """the quick tier replays every program of at most two statements and, per scope, this many
-    larger ones (seeded)"""
-    return 60
+    larger ones (seeded); the small sibling-name scope is replayed completely"""
+    return 1000 if name == "movesib" else 60
 
 
 def act_key(act):
@@ -236,6 +237,12 @@ def judge_post(root, act, files1, exp_lines):
     return fails
 
 
+def _move_method_family(tier, verdict):
+    """'moving a method to an attribute's class' is decided with spec/PyClass.tla (family "mm")"""
+    from bind import _movemethod
+    return {"move_method": _movemethod.run(tier, verdict, common.SEED)}
+
+
 def main(tier):
     return pm.drive(
         PROP, tier, scopes(tier), INVARIANTS, replay_program, acts_of, quick_limit, act_key,
@@ -245,11 +252,12 @@ def main(tier):
             "requests are the legal ones of the spec: destination exists and does not bind the name, no import "
             "cycle arises, the destination's name is free where a client has to spell it, ...",
             "a module's observable is what its own statements print when it is imported first",
-            "no namespace packages, conditional imports, sys.path manipulation; MoveMethod is not modelled",
+            "no namespace packages, conditional imports, sys.path manipulation",
         ],
         rule="one request = (program enumerated by TLC, legal move/rename request of the spec); non-trivial "
              "program = rope changed the project for at least one request",
-        env_prefix="C05", small_all=lambda name: True, neutral_tags=NEUTRAL_TAGS)
+        env_prefix="C05", small_all=lambda name: True, neutral_tags=NEUTRAL_TAGS,
+        extra=_move_method_family)
 
 
 if __name__ == "__main__":
